@@ -3,9 +3,12 @@
    state the code really has (Io/Hidden.v; inventory regenerated from the source) is handled
    by a sound discipline.  A leak through state outside the model is the business of the
    history-driven oracle in harness/c13.py.
-   Only property theorems here, each closed by [exact] and followed by Print Assumptions. *)
+   Only property theorems here, each closed by [exact] and followed by Print Assumptions.
+   Full statements that are false of the faithful model are Definitions [.._full] in the facts
+   files, refuted here with their true restriction beside them. *)
 From Coq Require Import List NArith Bool Arith.
-From RPFT Require Import Base.Sexp Base.PyStr Base.Result Gen.Tables Io.Hidden Io.HiddenInventory Io.HiddenFacts.
+From RPFT Require Import Base.Sexp Base.PyStr Base.Result Gen.Tables Io.Hidden Io.HiddenInventory Io.HiddenFacts
+  Io.HiddenRenderFacts Io.HiddenHistoryFacts Io.HiddenFreshFacts Io.HiddenIdsFacts.
 Import ListNotations.
 
 (* 0. the model covers exactly the hidden state the current source has *)
@@ -27,13 +30,133 @@ Theorem C13_defaults_pristine : forall cs, h_slots (fst (run init cs)) = init_sl
 Proof. exact defaults_pristine. Qed.
 Print Assumptions C13_defaults_pristine.
 
-(* 3. history freedom of the calls that work from files *)
+(* 3. history freedom of the calls that work from files (partial: calls on a kept container
+   depend, by design, on what was done to THAT container; see 4) *)
 Theorem C13_history_free_partial : forall h c, reachable h -> file_call c = true ->
   snd (step h c) = shift_outcome (h_fresh h) (snd (step init c)).
 Proof. exact history_free. Qed.
 Print Assumptions C13_history_free_partial.
 
-(* 4. exporting twice gives the same rows, whatever an earlier export left behind *)
+Example C13_history_free_nonvacuous :
+  exists h c r, reachable h /\ file_call c = true /\ 0 < h_fresh h /\ snd (step init c) = ORendered r.
+Proof. exact history_free_nonvacuous. Qed.
+Print Assumptions C13_history_free_nonvacuous.
+
+(* 4a. exporting twice gives the same rows, whatever an earlier export left behind *)
 Theorem C13_to_rows_twice : forall f, snd (to_rows (fst (to_rows f))) = snd (to_rows f).
 Proof. exact to_rows_twice. Qed.
 Print Assumptions C13_to_rows_twice.
+
+(* 4b. an export leaves no trace in ANY later call: renders, exports, compilations *)
+Theorem C13_to_rows_leaves_no_trace : forall h i j cs,
+  snd (run (fst (step h (CToRows i j))) cs) = snd (run h cs).
+Proof. exact to_rows_leaves_no_trace. Qed.
+Print Assumptions C13_to_rows_leaves_no_trace.
+
+(* 4c. rendering twice: the second render returns the same document and changes nothing at all
+   in the hidden state (no new uuid), whatever the process did before *)
+Theorem C13_render_twice : forall h i h1 r,
+  reachable h -> step h (CRender i) = (h1, ORendered r) -> step h1 (CRender i) = (h1, ORendered r).
+Proof. exact render_twice_history. Qed.
+Print Assumptions C13_render_twice.
+
+Example C13_render_twice_nonvacuous :
+  exists h h1 r, reachable h /\ step h (CRender 0) = (h1, ORendered r) /\ r_groups r = [([71]%N, Some (Fresh 2))].
+Proof. exact render_twice_history_nonvacuous. Qed.
+Print Assumptions C13_render_twice_nonvacuous.
+
+(* 4d. "render does not change what to_rows returns" (render_then_to_rows_full) is FALSE of the
+   faithful model: the first render gives id-less references their identifiers ... *)
+Theorem C13_render_then_to_rows_refuted : ~ render_then_to_rows_full.
+Proof. exact render_then_to_rows_refuted. Qed.
+Print Assumptions C13_render_then_to_rows_refuted.
+
+(* ... it holds from the first render on ... *)
+Theorem C13_render_then_to_rows_validated : forall h i h1 r j,
+  reachable h -> step h (CRender i) = (h1, ORendered r) ->
+  snd (step (fst (step h1 (CRender i))) (CToRows i j)) = snd (step h1 (CToRows i j)).
+Proof. exact render_then_to_rows_validated. Qed.
+Print Assumptions C13_render_then_to_rows_validated.
+
+(* ... and what the first render changes is the references' identifiers only *)
+Theorem C13_render_changes_only_refs : forall fd gd f,
+  map erase_node (snd (to_rows (mkF (f_name f) (f_uuid f) (map (assign_act fd gd) (f_nodes f)) (f_scratch f))))
+  = map erase_node (snd (to_rows f)).
+Proof. exact render_changes_only_refs. Qed.
+Print Assumptions C13_render_changes_only_refs.
+
+(* 5. invented ids are never reused between runs: ids of two compilations in one process are
+   disjoint (partial: "between objects" is proved per flow in 5b, across a whole document by the tie) *)
+Theorem C13_fresh_never_reused_partial : forall h t1 w1 cs t2 w2,
+  reachable h ->
+  forall u, In u (outcome_ids (snd (step h (CCreateFlows t1 w1)))) ->
+            In u (outcome_ids (snd (step (fst (run (fst (step h (CCreateFlows t1 w1))) cs)) (CCreateFlows t2 w2)))) ->
+            exists s, u = Given s.
+Proof. exact fresh_never_reused. Qed.
+Print Assumptions C13_fresh_never_reused_partial.
+
+Example C13_fresh_never_reused_nonvacuous :
+  exists u, In u (outcome_ids (snd (step init (CCreateFlows None wb_two)))) /\ u = Fresh 0 /\
+            In (Fresh 4) (outcome_ids (snd (step (fst (step init (CCreateFlows None wb_two))) (CCreateFlows None wb_two)))).
+Proof. exact fresh_never_reused_nonvacuous. Qed.
+Print Assumptions C13_fresh_never_reused_nonvacuous.
+
+(* 5a. a render / export only shows ids handed out so far *)
+Theorem C13_kept_ids_bounded : forall h c,
+  reachable h -> Forall (bu (h_fresh (fst (step h c)))) (outcome_ids (snd (step h c))).
+Proof. exact kept_ids_bounded. Qed.
+Print Assumptions C13_kept_ids_bounded.
+
+(* 5b. the invented object ids of one compiled flow are pairwise distinct and were all drawn
+   during this flow's own parse *)
+Theorem C13_parse_flow_fresh_distinct : forall n0 nm rows c,
+  bcont n0 c ->
+  bd n0 (parse_flow nm rows c)
+     (fun n r => NoDup (fresh_nums (map fst (f_nodes (fst r)) ++ [f_uuid (fst r)]))
+                 /\ Forall (fun m => n0 <= m < n) (fresh_nums (map fst (f_nodes (fst r)) ++ [f_uuid (fst r)]))).
+Proof. exact parse_flow_fresh_distinct. Qed.
+Print Assumptions C13_parse_flow_fresh_distinct.
+
+Example C13_parse_flow_fresh_distinct_nonvacuous :
+  exists s' f c', parse_flow [102]%N [FSend [] (Lit [104]%N); FFor [120]%N [[97]%N; [98]%N] [FSend [] (Var [120]%N)]] empty_cont (enter0 init) = (s', Ok (f, c'))
+                  /\ fresh_nums (map fst (f_nodes f) ++ [f_uuid f]) = [0; 1; 2; 3].
+Proof. exact parse_flow_fresh_distinct_nonvacuous. Qed.
+Print Assumptions C13_parse_flow_fresh_distinct_nonvacuous.
+
+(* 6. given identifiers are reproduced verbatim.  Parse (partial: loop-free sheets; with loops by
+   the tie): the k-th node is the k-th row with the row's _nodeId / obj_id ... *)
+Theorem C13_given_verbatim_parse_partial : forall nm rows c,
+  forallb flat_row rows = true ->
+  post (parse_flow nm rows c) (fun r => f_name (fst r) = nm /\ Forall2 row_node rows (f_nodes (fst r))).
+Proof. exact parse_flow_given_verbatim. Qed.
+Print Assumptions C13_given_verbatim_parse_partial.
+
+Example C13_given_verbatim_nonvacuous :
+  exists s' f c', parse_flow [102]%N [FSend s_n1 (Lit [104]%N); FGroup [] [71]%N s_g1] empty_cont (enter0 init) = (s', Ok (f, c'))
+                  /\ f_nodes f = [(Given s_n1, ASend [104]%N); (Fresh 0, AGroup [71]%N (Some (Given s_g1)))].
+Proof. exact given_verbatim_nonvacuous. Qed.
+Print Assumptions C13_given_verbatim_nonvacuous.
+
+(* ... render: every node keeps its uuid, text and names; every reference comes out with an
+   identifier, and a reference that had one keeps exactly that one (all containers) *)
+Theorem C13_render_given_verbatim : forall c n c4 r n2,
+  render_pure c n = Ok (c4, r, n2) ->
+  Forall2 (fun f f' => fst (fst f') = f_name f /\ snd (fst f') = f_uuid f /\ Forall2 node_agree (f_nodes f) (snd f'))
+          (c_flows c) (r_flows r).
+Proof. exact render_given_verbatim. Qed.
+Print Assumptions C13_render_given_verbatim.
+
+Example C13_render_given_verbatim_nonvacuous :
+  NoDup (keys (c_gdict witness_cont)) /\
+  exists c4 r n2, render_pure witness_cont 2 = Ok (c4, r, n2) /\ r_groups r = [(g_name, Some (Fresh 2))].
+Proof. exact render_twice_nonvacuous. Qed.
+Print Assumptions C13_render_given_verbatim_nonvacuous.
+
+(* render IS that pure function of (container, counter) *)
+Theorem C13_render_is_pure : forall c s,
+  render c s = match render_pure c (s_next s) with
+               | Err e => (s, Err e)
+               | Ok (c4, r, n2) => (with_next s n2, Ok (c4, r))
+               end.
+Proof. exact render_is_pure. Qed.
+Print Assumptions C13_render_is_pure.
